@@ -70,9 +70,15 @@ Definition fine_homog (ks : list skey) (rows : list row) : bool :=
 Definition value_order_code (ks : list skey) (inp out : list row) (v : N) : N :=
   if N.eqb v 0 && fine_homog ks inp && negb (spec_sorted_b ks out) then 4%N else v.
 
+(* D12 as the correspondence uses it: the shipped renderings of anchors and float64 are taken as they are (that
+   they obey the oracle laws is exactly what the value-order check then tests on every case) *)
+Definition d12c : list skey -> list row -> bool :=
+  d12_gen (fun _ => true) tm_pair_o
+          (fun l => match l_val l with VFloat f => sf_in_domain f | _ => false end).
+
 (* ---- Table.Sort ---- *)
 Definition sort_verdict (c : sort_cfg) (inp : list row) (out : option (list row)) : N :=
-  let ind12 := match c with Some ks => d12 ks inp | None => false end in
+  let ind12 := match c with Some ks => d12c ks inp | None => false end in
   let agree :=
     match table_sort c inp, out with
     | Ok m, Some o =>
@@ -137,7 +143,7 @@ Definition e2e12_verdict (outs : list binding) (keys seen : list skey) (lim : op
                     else keys_eqb seen keys in
       let c : sort_cfg := match keys with [] => None | _ => Some seen end in
       let fetched := fetch_pushdown (pushdown_mask cur_pushdown_guarded c pushdown) lim base in
-      let ind12 := match c with Some ks => d12 ks fetched | None => false end in
+      let ind12 := match c with Some ks => d12c ks fetched | None => false end in
       let homog := match c with Some ks => homogeneous ks fetched | None => true end in
       let n_ok := match lim with
                   | Some n => Nat.eqb (length o) (Nat.min (Z.to_nat n) (length fetched))
